@@ -63,13 +63,21 @@ def classify(e):
         else:
             if opened:
                 res.append(("envelope|%s|opened" % cls, {"reflect": "a datagram reflected to its own sender is opened",
-                                                           "cross": "a datagram sealed for another connection is opened"}.get(cls, cls)))
+                                                           "cross": "a datagram sealed for another connection is opened",
+                                                           "forged": "a datagram sealed by an outsider under a key anybody can know (constant pattern) is opened: %s" % json.dumps(opened[0])}.get(cls, cls)))
             if panics:
                 res.append(("envelope|%s|panic" % cls, "a %s datagram panics the receiver" % cls))
         if not res and e["members"] == 0:
             res.append(("envelope|%s|nothing-sealed" % cls, "sealing a payload of %d bytes produced an empty datagram" % e["len"]))
         if not res:
             res.append(("envelope|%s|counts" % cls, "family counters not explained (members %s, opened %s, panics %s)" % (e["members"], e["opened"], e["panics"])))
+    elif op == "slots":
+        res.append(("envelope|slots|shared-or-missing-key", "the key slots of the ends do not hold what Envelope!KeyAt says: a key is shared with an end of "
+                    "another connection / an unused slot holds material somebody else holds too, or the session key is not in slot 0 of both ends"))
+    elif op == "roundtrip" and e.get("level") == "core-after-tamper":
+        res.append(("envelope|after-tamper|ticks=%s|%s" % ("0" if e.get("ticks", 0) == 0 else ">0", {"ok": "bytes-differ", "err": "rejected", "panic": "panic"}.get(e["res"], e["res"])),
+                    "after altered copies of a datagram were (rightly) dropped, a genuine datagram of the same sender is no longer delivered "
+                    "(%d housekeeping ticks later): a rejected datagram left something behind" % e.get("ticks", 0)))
     elif op == "roundtrip":
         where = ("plain-session|" if e["plain"] else "") + ("len=0" if e["len"] == 0 else "len>0")
         what = {"ok": "bytes-differ", "err": "rejected", "panic": "panic"}.get(e["res"], e["res"])
@@ -124,12 +132,15 @@ def object_level(tier, out):
     for e in evs:
         if e["op"] == "session":
             continue
-        if e.get("level") == "mesh":
+        if e["op"] == "slots":
+            classes["slots/" + e["level"]] = classes.get("slots/" + e["level"], 0) + len(e["entries"])
+            continue
+        if e.get("level") == "mesh" and e.get("class") != "forged":
             seen_shapes.add(shape_of(e))
         k = (e["op"], e.get("level"), e.get("class", ""), e.get("field", ""))
         n = e["members"] if e["op"] == "family" else e["windows"] if e["op"] == "cleartext" else 1
         classes["/".join(x for x in k if x)] = classes.get("/".join(x for x in k if x), 0) + n
-        distinct[(k, e["cipher"], e["len"], e.get("type"), e.get("offset"), e.get("roffset"), shape_of(e) if "conn" in e else None,
+        distinct[(k, e["cipher"], e.get("len"), e.get("type"), e.get("offset"), e.get("roffset"), shape_of(e) if "conn" in e else None,
                   e.get("what"))] = e["members"] if e["op"] == "family" else 1
     if not shapes <= seen_shapes and not s["setup_failures"]:
         raise V.ToolError("the driver did not exercise these arrival shapes of MC_Envelope: %s" % sorted(shapes - seen_shapes)[:5])
